@@ -11,7 +11,7 @@ alloc = KaniUnit("c15_alloc", CORE,
 lw = KaniUnit("c15_loader_wit", CORE, modules=[dict(file=CORE + "/src/model/network/graph_loader.rs", src="c15_loader_wit.rs")], harnesses=[])
 lw.native_witnesses = ["c15_wit_loaded_network_is_the_listed_one"]
 UNITS = [VerusUnit("c15_graph", "c15_graph", rlimit=60), VerusUnit("c11_container", "c11_container", rlimit=60), alloc, lw]
-EXPLANATION = ("file reading / parsing / decompression (csv, serde, flate2, std::fs) is outside both back ends: 'loaded == listed' is NOT decided. Decided (in-memory half): the per-row adjacency update of "
+EXPLANATION = ("lemmas by induction over the rows (unit c15_graph): after all rows the out-list of a vertex holds exactly the listed edges that leave it, the in-list exactly those that enter it; file reading / parsing / decompression (csv, serde, flate2, std::fs) is outside both back ends: 'loaded == listed' is NOT decided. Decided (in-memory half): the per-row adjacency update of "
                "EdgeLoader::try_from (closure extracted by rule R5, Verus): out-list of the source gets edge->destination, in-list of the destination gets edge->source, nothing else changes, an endpoint beyond the vertex "
                "count is recorded as missing; Graph::{get_edge,get_vertex,src_vertex_id,dst_vertex_id,edge_triplet}: lookup by id is lookup by index, out of range => the matching NotFound error; "
                "the adjacency container at every size (C11 unit); allocation sizes of adj/rev")
